@@ -4,7 +4,7 @@ CONSTANTS
   MaxSamples = 3
   Gaps = {1, 2, 3}
   FirstT = 0
-  MaxT = 5
+  MaxT = 4
   Kinds = {"f", "sf", "h", "sh"}
   Sels <- SelsA
   Offs = {0, 1}
